@@ -330,6 +330,87 @@ def split_task(p, cfg, rec):
             inputs=vars_, replay=replay)
 
 
+class _Stopper(py4hw.Logic):
+    """a checker block that cancels the run from inside an edge (Simulator.stop() called in clock(), as a breakpoint block or a GUI
+    thread would): the edge in progress must still complete as one atomic step"""
+
+    def __init__(self, parent, name, a):
+        super().__init__(parent, name)
+        self.a = self.addIn('a', a)
+        self.armed = False
+        self.sim = None
+
+    def clock(self):
+        if self.armed:
+            self.sim.stop()
+
+
+def stop_task(p, cfg, rec):
+    build, n = cfg['build'], cfg['n']
+
+    def run(stopped, values=None):
+        with quiet():
+            s = py4hw.HWSystem()
+            d = build(s)
+            first_in = list(d['ins'].values())[0] if d['ins'] else s.wire('stop_in', 1)
+            stopper = _Stopper(s, 'stopper', first_in)
+            if values is None:
+                symsim.instrument(s, rec)
+            sim = s.getSimulator()
+        stopper.sim = sim
+        vars_ = {}
+        if values is None:
+            vars_.update(D.symbolize_state(s))
+            Iw = symsim.poke_fresh(list(d['ins'].values()), 'i_')
+            vars_.update(('i:' + nme, Iw[w]) for nme, w in d['ins'].items())
+        else:
+            D.load_concrete_state(s, values)
+            for nme, w in d['ins'].items():
+                w.put(values.get('i:' + nme, 0))
+        Wire.prepared = []
+        with quiet():
+            if stopped:
+                stopper.armed = True
+                sim.clk(n)                      # cancelled from inside its first edge
+                stopper.armed = False
+            else:
+                sim.clk(1)
+        mid = D.snapshot_all(s)
+        mid['total_clks'] = sim.total_clks
+        left = list(Wire.prepared)
+        with quiet():
+            sim.clk(n - 1)                      # the run is resumed
+        end = D.snapshot_all(s)
+        end['total_clks'] = sim.total_clks
+        return mid, end, left, vars_
+    m1, e1, left1, vars_ = run(True)
+    m0, e0, left0, _ = run(False)
+    p.res['states'] += 1
+    p.res['transitions'] += 2 * n
+    p.structural('nothing is left in Wire.prepared after a clk() call that was cancelled from inside an edge', left1 == [], detail={'left': [w.getFullPath() for w in left1]})
+
+    def cmp(a, b):
+        cs = []
+        for k in a:
+            c = D.differ(a[k], b.get(k))
+            if c is True:
+                cs.append(z3.BoolVal(True))
+            elif c is not False:
+                cs.append(c)
+        return z3.Or(*cs) if cs else z3.BoolVal(False)
+
+    def replay(values):
+        x = run(True, values)
+        y = run(False, values)
+        for lab, i in (('after the cancelled call', 0), ('after the resumed run', 1)):
+            diff = {k: (x[i][k], y[i][k]) for k in x[i] if x[i][k] != y[i].get(k)}
+            if diff:
+                return {'point': lab, 'differences': {k: list(v) for k, v in list(diff.items())[:6]}}
+        return None
+    p.prove('clk(%d) cancelled by stop() inside its first edge leaves exactly the state of clk(1)' % n, cmp(m1, m0), inputs=vars_, replay=replay)
+    p.prove('resuming with clk(%d) gives the state of the uninterrupted run' % (n - 1), cmp(e1, e0), inputs=vars_, replay=replay)
+
+
 def tasks_for(tier):
     quick = tier == 'quick'
     tasks = []
@@ -369,6 +450,8 @@ def tasks_for(tier):
             for sp in splits:
                 tasks.append(('split %s clk(%d) vs %s' % (dname, n, '+'.join(map(str, sp))), split_task,
                               {'build': build, 'n': n, 'split': sp}))
+    for dname in ('chain3', 'reset-chain', 'sequence-reg', 'reg-fsm-reg') if quick else sorted(D.DESIGNS):
+        tasks.append(('stop() from inside an edge, then resume: %s' % dname, stop_task, {'build': D.DESIGNS[dname], 'n': 3}))
     # memories keep their state outside wires: "pre-edge values" includes the stored words (a read returns the content
     # before a same-cycle write, on either port) - the C09 reference machines of the memory blocks are run here as well
     from . import c09
